@@ -14,3 +14,61 @@ C01_PROBES = {
                                           While(Op("Less", Int(0), Rd("w")), Blk(Set("n", Int(1)), Set("w", Op("Sub", Rd("w"), Int(1))))),
                                           Set("z", Int(7)), SetG("r", Rd("z"))]),
 }
+
+
+def _counter_pair():
+    # mk() returns a table of two sibling closures sharing the local n; used after mk's scope has exited
+    return Prog(
+        [Set("p", Int(100)), Set("q", Int(200)),
+         Set("o", Call("mk", Int(5))),
+         SetG("a", Dyn(Rd("o.inc"))), SetG("b", Dyn(Rd("o.inc"))), SetG("c", Dyn(Rd("o.get"))),
+         SetG("pq", Op("Add", Rd("p"), Rd("q")))],
+        ("mk", ["start"], [Set("n", Rd("start")), Set("o", Table()),
+                           Set("o.inc", Closure([], Set("n", Op("Add", Rd("n"), Int(1))), Ret(Rd("n")))),
+                           Set("o.get", Closure([], Ret(Rd("n")))),
+                           Ret(Rd("o"))]))
+
+
+C06_IDIOMS = {
+    "siblings-share-after-exit": _counter_pair(),
+    # sharing while the scope is alive: the closure's write is visible to the enclosing function and vice versa
+    "share-while-alive": Prog([Set("x", Int(1)), Set("f", Closure([], Set("x", Op("Add", Rd("x"), Int(10))), Ret(Rd("x")))),
+                               SetG("a", Dyn(Rd("f"))), Set("x", Int(5)), SetG("b", Dyn(Rd("f"))), SetG("c", Rd("x"))]),
+    # each loop iteration captures a distinct variable
+    "loop-distinct-capture": Prog([Set("fs", Table()),
+                                   Repeat("i", Int(3), Blk(Set("j", Op("Mul", Rd("i"), Int(2))),
+                                                           C("AppendTable", [Closure([], Ret(Op("Add", Rd("i"), Rd("j")))), Rd("fs")]))),
+                                   ForEach("", "", "f", Rd("fs"), Blk(Log(Dyn(Rd("f")))))]),
+    # closure created at call depth 2 under frames with parameters and locals; three levels of nesting
+    "nested-three-deep": Prog([Set("z", Int(7)), SetG("r", Call("outer", Int(1), Int(2)))],
+                              ("outer", ["a", "b"], [Set("l", Int(3)), Ret(Call("mid", Rd("a"), Op("Add", Rd("b"), Rd("l"))))]),
+                              ("mid", ["c", "d"], [Set("m", Int(10)),
+                                                   Set("f", Closure(["e"], Set("g", Closure(["h"], Ret(Op("Add", Op("Add", Rd("c"), Rd("m")), Op("Add", Rd("e"), Rd("h")))))),
+                                                                    Ret(Dyn(Rd("g"), Int(1000))))),
+                                                   Ret(Dyn(Rd("f"), Op("Mul", Rd("d"), Int(100))))])),
+    # a loop variable shadowing an outer local of the same name: the closure names the inner one
+    "shadowed-loop-variable": Prog([Set("i", Int(50)), Set("fs", Table()),
+                                    Repeat("i", Int(2), Blk(C("AppendTable", [Closure([], Ret(Rd("i"))), Rd("fs")]))),
+                                    ForEach("", "", "f", Rd("fs"), Blk(Log(Dyn(Rd("f"))))), SetG("outer", Rd("i"))]),
+    # captured loop variable plus a bare value-producing statement in the same body
+    "captured-loop-var-with-stray-value": Prog([Set("fs", Table()),
+                                                Repeat("i", Int(2), Blk(C("AppendTable", [Closure([], Ret(Rd("i"))), Rd("fs")]), Call("noop"))),
+                                                ForEach("", "", "f", Rd("fs"), Blk(Log(Dyn(Rd("f")))))],
+                                               ("noop", [], [Ret(Int(0))])),
+    # the same card position in two functions of two modules: each call must run its own closure body
+    "same-position-two-modules": Prog([SetG("a", Dyn(Call("m1.mk"))), SetG("b", Dyn(Call("m2.mk")))],
+                                      ("m1.mk", [], [Ret(Closure([], Ret(Int(1))))]),
+                                      ("m2.mk", [], [Ret(Closure([], Ret(Int(2))))])),
+    "same-position-two-functions": Prog([SetG("a", Dyn(Call("mk1"))), SetG("b", Dyn(Call("mk2")))],
+                                        ("mk1", [], [Ret(Closure([], Ret(Int(1))))]),
+                                        ("mk2", [], [Ret(Closure([], Ret(Int(2))))])),
+    # closure passed to and invoked by another function, writing a captured variable of its creator
+    "callback-writes-creator-local": Prog([Set("acc", Int(0)), Call("each3", Closure(["v"], Set("acc", Op("Add", Rd("acc"), Rd("v"))), Ret(Int(0)))),
+                                           SetG("r", Rd("acc"))],
+                                          ("each3", ["cb"], [Repeat("i", Int(3), Blk(Dyn(Rd("cb"), Rd("i")))), Ret(Int(0))])),
+    # closure capturing a parameter and a local of a function called with arguments, early return in between
+    "capture-param-early-return": Prog([Set("k", Int(9)), Set("f", Call("mk", Int(4), Int(6))), SetG("r", Dyn(Rd("f"), Int(1)))],
+                                       ("mk", ["a", "b"], [Set("s", Op("Add", Rd("a"), Rd("b"))),
+                                                           If(Op("Less", Int(0), Rd("s")), Ret(Closure(["x"], Ret(Op("Add", Op("Add", Rd("s"), Rd("a")), Rd("x")))))),
+                                                           Ret(Closure(["x"], Ret(Int(-1))))])),
+}
